@@ -53,7 +53,7 @@ def s3(ck, an):
                 sites.append((f, e))
         ck.floor(f"accesses of {owner}.{attr}", len(sites), minimum)
         for f, e in sites:
-            ck.check(f.short in allowed, "OWN", name, f.short, e.loc, f"{owner}.{attr} accessed by delivery code {f.short}",
+            ck.check(all(g.short in allowed for g in an.attributed(f)), "OWN", name, f.short, e.loc, f"{owner}.{attr} accessed by delivery code {f.short}",
                      f"{f.short} accesses {owner}.{attr}, which holds events/data of the future; allowed: {sorted(allowed)}", construct=stmt_text(e.node))
     readers("TradingEnv", "_events_latent", {"TradingEnv.reset", "TradingEnv._process_latent_events", "TradingEnv._process_nonlatent_events", "TradingEnv.__init__"}, "S3.prefetched-batch-private")
     readers("TradingEnv", "_events_nonlatent", {"TradingEnv.reset", "TradingEnv._process_nonlatent_events", "TradingEnv.__init__"}, "S3.prefetched-batch-private")
